@@ -87,7 +87,9 @@ CLASH = ["typedef int T; T x; void f(void){ T * y; { int T; T * 3; } }", "int T;
          "int g(void){ return sizeof(struct S *) + (unsigned) (T * *) p + _Alignof(char *); }",
          "void h(int (*cb)(char *, int **), void *(*alloc)(unsigned long)) { cb((char *) 0, (int **) 0); }",
          "# 5 \"a.h\"\nint a1;\n# 7\nint a2;\n#line 20\nint a3; void k(void){ a1 = (int) sizeof(a2 ? (short *) 0 : (short *) 1); }",
-         "#line 3\nint b1;\n# 9 \"b.h\"\nint b2;\n#line 3\nint b3;"]
+         "#line 3\nint b1;\n# 9 \"b.h\"\nint b2;\n#line 3\nint b3;",
+         # deep nesting (well inside what a solo parse can do) next to short inputs that finish first
+         "int deep = " + "(" * 60 + "1" + ")" * 60 + ";", "int deeper = " + "(" * 150 + "1" + ")" * 150 + ";", "int deepest = " + "(" * 400 + "1" + ")" * 400 + ";", "void d(void){ " + "if (a) { " * 40 + "x;" + " }" * 40 + " }", "int z;"]
 
 
 def run(ctx, b, broken):
@@ -113,7 +115,8 @@ def run(ctx, b, broken):
             ctx.nontriv(repr((texts, sched)))
         for i in range(k):
             want = solo(texts[i], i)
-            if res[i] != want and "R" not in (res[i], want):
+            # a RecursionError is tolerated only when the input is too deep for a solo run as well
+            if res[i] != want and want != "R":
                 su.violation(texts[i], f"instance {i} under an interleaved schedule gave {str(res[i])[:100]!r}; alone it gives {want[:100]!r}",
                              {"texts": texts, "schedule": sched})
                 break
@@ -143,7 +146,7 @@ def run(ctx, b, broken):
                 got = "R"
             except Exception as e:
                 got = "C" + US + type(e).__name__
-            if got != fresh[(text, fn)] and "R" not in (got, fresh[(text, fn)]):
+            if got != fresh[(text, fn)] and fresh[(text, fn)] != "R":
                 su.violation(text, f"a brand-new CParser used after other instances gave {got[:100]!r}; in a fresh interpreter the same call gives {fresh[(text, fn)][:100]!r}",
                              {"earlier_instances_parsed": [t for t, _ in sq[:j]]})
                 break
